@@ -16,6 +16,9 @@ type Payload struct {
 	Id   int64
 	Kind int64
 	Out  int64
+	M    map[string]int64 // per-request containers (never shared between requests)
+	NilM map[string]int64
+	Sl   []int64
 }
 
 // poolReq is one in-flight pool request of a history.
@@ -77,7 +80,7 @@ func (h *poolHarness) start(id int64, kind int64, keys []string, call gx.Call) *
 	r := &poolReq{id: id, keys: keys, call: call, kind: kind, payloads: map[string]*Payload{}, done: make(chan struct{})}
 	data := map[string]interface{}{}
 	for _, k := range keys {
-		p := &Payload{Id: id, Kind: kind}
+		p := &Payload{Id: id, Kind: kind, M: map[string]int64{}, Sl: []int64{0, 0}}
 		r.payloads[k] = p
 		data[k] = p
 	}
